@@ -29,6 +29,7 @@ def run(ctx):
     ctx.do(SI.rule_eigh1)
     ctx.do(MI.rule_form1)
     ctx.do(MI.rule_ori1)
+    ctx.do(MI.rule_pair1)
     ctx.do(MI.rule_nonneg1, ["geometry_tools/utils/core.py", "geometry_tools/coxeter.py"])
     ctx.do(MI.rule_eigh2, ["geometry_tools/utils/core.py", "geometry_tools/coxeter.py"])
     ctx.do(D.rule_t3, [CORE])
